@@ -207,6 +207,7 @@ func specCartCovered(rules []portRangeTernaryCartesianProduct, sp, dp uint16) bo
 //@   loop 1 invariant C17.portmask.inv.inside: port|^mask <= end
 
 //@ func CreatePortRangeCartesianProduct(src portRange, dst portRange) (rules []portRangeTernaryCartesianProduct, err error)
+//@   defines err == nil ==> len(rules) == specCartLen(src, dst) && (forall k int :: 0 <= k && k < len(rules) ==> rules[k] == specCartRule(src, dst, k))
 //@   deadreturns 3, 5, 6, 7
 //@   logical sp uint16
 //@   logical dp uint16
@@ -2030,3 +2031,197 @@ func specNoPdr(s *PFCPSession, id uint32) bool {
 //@ func (s *PFCPSession) CreatePDR(p pdr)
 //@   requires s != nil
 //@   ensures C03.crpdr: len(s.pdrs) == old[int](len(s.pdrs))+1 && same(at(s.pdrs, hi(s.pdrs)-1), p) && (forall i int :: 0 <= i && i < old[int](len(s.pdrs)) ==> same(at(s.pdrs, lo(s.pdrs)+i), old[pdr](at(s.pdrs, lo(s.pdrs)+i))))
+
+func specFirstFarAt(s *PFCPSession, j int, id uint32) bool {
+	return lo(s.fars) <= j && j < hi(s.fars) && at(s.fars, j).farID == id &&
+		forall(func(i int) bool { return implies(lo(s.fars) <= i && i < j, at(s.fars, i).farID != id) })
+}
+
+func specNoFar(s *PFCPSession, id uint32) bool {
+	return forall(func(i int) bool { return implies(lo(s.fars) <= i && i < hi(s.fars), at(s.fars, i).farID != id) })
+}
+
+//@ func (s *PFCPSession) RemoveFAR(id uint32) (r *far, err error)
+//@   requires s != nil
+//@   logical j int
+//@   ensures C03.rmfar.result: (err == nil) <==> (r != nil)
+//@   ensures C03.rmfar.found: old[bool](specFirstFarAt(s, j, id)) ==> err == nil && !allocated(r) && same(*r, old[far](at(s.fars, j))) && len(s.fars) == old[int](len(s.fars))-1 && sameArray(s.fars, old[[]far](s.fars)) && lo(s.fars) == old[int](lo(s.fars))
+//@   ensures C03.rmfar.before: old[bool](specFirstFarAt(s, j, id)) ==> forall i int :: lo(s.fars) <= i && i < j ==> same(at(s.fars, i), old[far](at(s.fars, i)))
+//@   ensures C03.rmfar.after: old[bool](specFirstFarAt(s, j, id)) ==> forall i int :: j <= i && i < hi(s.fars) ==> same(at(s.fars, i), old[far](at(s.fars, i+1)))
+//@   ensures C03.rmfar.none: old[bool](specNoFar(s, id)) ==> err != nil && len(s.fars) == old[int](len(s.fars)) && sameArray(s.fars, old[[]far](s.fars)) && (forall i int :: lo(s.fars) <= i && i < hi(s.fars) ==> same(at(s.fars, i), old[far](at(s.fars, i))))
+//@   loop 1 invariant C03.rmfar.l1: rangeidx+1 <= len(s.fars) && (forall i int :: lo(s.fars) <= i && i < lo(s.fars)+rangeidx+1 ==> at(s.fars, i).farID != id) && same(s.fars, old[[]far](s.fars)) && (forall i int :: lo(s.fars) <= i && i < hi(s.fars) ==> same(at(s.fars, i), old[far](at(s.fars, i))))
+
+//@ func (s *PFCPSession) CreateFAR(f far)
+//@   requires s != nil
+//@   ensures C03.crfar: len(s.fars) == old[int](len(s.fars))+1 && same(at(s.fars, hi(s.fars)-1), f) && (forall i int :: 0 <= i && i < old[int](len(s.fars)) ==> same(at(s.fars, lo(s.fars)+i), old[far](at(s.fars, lo(s.fars)+i))))
+
+func specFirstQerAt(s *PFCPSession, j int, id uint32) bool {
+	return lo(s.qers) <= j && j < hi(s.qers) && at(s.qers, j).qerID == id &&
+		forall(func(i int) bool { return implies(lo(s.qers) <= i && i < j, at(s.qers, i).qerID != id) })
+}
+
+func specNoQer(s *PFCPSession, id uint32) bool {
+	return forall(func(i int) bool { return implies(lo(s.qers) <= i && i < hi(s.qers), at(s.qers, i).qerID != id) })
+}
+
+//@ func (s *PFCPSession) RemoveQER(id uint32) (r *qer, err error)
+//@   requires s != nil
+//@   logical j int
+//@   ensures C03.rmqer.result: (err == nil) <==> (r != nil)
+//@   ensures C03.rmqer.found: old[bool](specFirstQerAt(s, j, id)) ==> err == nil && !allocated(r) && same(*r, old[qer](at(s.qers, j))) && len(s.qers) == old[int](len(s.qers))-1 && sameArray(s.qers, old[[]qer](s.qers)) && lo(s.qers) == old[int](lo(s.qers))
+//@   ensures C03.rmqer.before: old[bool](specFirstQerAt(s, j, id)) ==> forall i int :: lo(s.qers) <= i && i < j ==> same(at(s.qers, i), old[qer](at(s.qers, i)))
+//@   ensures C03.rmqer.after: old[bool](specFirstQerAt(s, j, id)) ==> forall i int :: j <= i && i < hi(s.qers) ==> same(at(s.qers, i), old[qer](at(s.qers, i+1)))
+//@   ensures C03.rmqer.none: old[bool](specNoQer(s, id)) ==> err != nil && len(s.qers) == old[int](len(s.qers)) && sameArray(s.qers, old[[]qer](s.qers)) && (forall i int :: lo(s.qers) <= i && i < hi(s.qers) ==> same(at(s.qers, i), old[qer](at(s.qers, i))))
+//@   loop 1 invariant C03.rmqer.l1: rangeidx+1 <= len(s.qers) && (forall i int :: lo(s.qers) <= i && i < lo(s.qers)+rangeidx+1 ==> at(s.qers, i).qerID != id) && same(s.qers, old[[]qer](s.qers)) && (forall i int :: lo(s.qers) <= i && i < hi(s.qers) ==> same(at(s.qers, i), old[qer](at(s.qers, i))))
+
+//@ func (s *PFCPSession) UpdateQER(q qer) (err error)
+//@   requires s != nil
+//@   logical j int
+//@   ensures C03.updqer.found: old[bool](specFirstQerAt(s, j, q.qerID)) ==> err == nil && same(at(s.qers, j), q) && (forall i int :: lo(s.qers) <= i && i < hi(s.qers) && i != j ==> same(at(s.qers, i), old[qer](at(s.qers, i))))
+//@   ensures C03.updqer.none: old[bool](specNoQer(s, q.qerID)) ==> err != nil && (forall i int :: lo(s.qers) <= i && i < hi(s.qers) ==> same(at(s.qers, i), old[qer](at(s.qers, i))))
+//@   ensures C03.updqer.shape: same(s.qers, old[[]qer](s.qers))
+//@   loop 1 invariant C03.updqer.l1: rangeidx+1 <= len(s.qers) && (forall i int :: lo(s.qers) <= i && i < lo(s.qers)+rangeidx+1 ==> at(s.qers, i).qerID != q.qerID) && same(s.qers, old[[]qer](s.qers)) && (forall i int :: lo(s.qers) <= i && i < hi(s.qers) ==> same(at(s.qers, i), old[qer](at(s.qers, i))))
+
+//@ func (s *PFCPSession) CreateQER(q qer)
+//@   requires s != nil
+//@   ensures C03.crqer: len(s.qers) == old[int](len(s.qers))+1 && same(at(s.qers, hi(s.qers)-1), q) && (forall i int :: 0 <= i && i < old[int](len(s.qers)) ==> same(at(s.qers, lo(s.qers)+i), old[qer](at(s.qers, lo(s.qers)+i))))
+
+// ---------------------------------------------------------------------------
+// C03: BESS encoders - what is written for a rule, and that delete names what add installed
+// ---------------------------------------------------------------------------
+
+func specIsInt(fd *pb.FieldData) bool {
+	return fd != nil && typeIs[*pb.FieldData_ValueInt](fd.Encoding) && fd.Encoding.(*pb.FieldData_ValueInt) != nil
+}
+
+func specFD(fd *pb.FieldData) uint64 { return fd.Encoding.(*pb.FieldData_ValueInt).ValueInt }
+
+// specIntsN: the slice holds n integer-encoded fields.
+func specInts(fs []*pb.FieldData, n int) bool {
+	return len(fs) == n && forall(func(i int) bool { return implies(0 <= i && i < n, specIsInt(fs[i])) })
+}
+
+func specBessCmd(e int, name, cmd string) bool {
+	return gfieldS("bess.name", e) == name && gfieldS("bess.cmd", e) == cmd
+}
+
+// ---- FAR ----
+
+func specFarAction(f far) uint8 {
+	if f.applyAction&ActionForward != 0 {
+		if f.dstIntf == ie.DstInterfaceAccess {
+			return farForwardD
+		}
+		if f.dstIntf == ie.DstInterfaceCore || f.dstIntf == ie.DstInterfaceSGiLANN6LAN {
+			return farForwardU
+		}
+
+		return farDrop
+	}
+	if f.applyAction&ActionDrop != 0 {
+		return farDrop
+	}
+	if f.applyAction&(ActionBuffer|ActionNotify) != 0 {
+		return farNotify
+	}
+
+	return farDrop
+}
+
+//@ func (b *bess) setActionValue(f far) (r uint8)
+//@   pure
+//@   ensures C03.far.action: r == specFarAction(f)
+
+func specFarKey(fs []*pb.FieldData, f far) bool {
+	return specInts(fs, 2) && specFD(fs[0]) == uint64(f.farID) && specFD(fs[1]) == f.fseID
+}
+
+func specFarAddArg(e int) *pb.ExactMatchCommandAddArg {
+	return ptrAt[pb.ExactMatchCommandAddArg](int(gfield("bess.arg", e)))
+}
+
+func specFarDelArg(e int) *pb.ExactMatchCommandDeleteArg {
+	return ptrAt[pb.ExactMatchCommandDeleteArg](int(gfield("bess.arg", e)))
+}
+
+//@ func (b *bess) addFAR#1() free(b *bess, far far)
+//@   deadreturns 3
+//@   requires b != nil && b.client != nil && !enableGtpuPathMonitoring
+//@   ensures C03.far.add.count: glen("bess") <= old[int](glen("bess"))+1 && (gint("marshalfail") == old[int](gint("marshalfail")) ==> glen("bess") == old[int](glen("bess"))+1)
+//@   ensures C03.far.add.cmd: glen("bess") == old[int](glen("bess"))+1 ==> specBessCmd(gentry("bess", old[int](glen("bess"))), "farLookup", "add") && specFarKey(specFarAddArg(gentry("bess", old[int](glen("bess")))).Fields, far)
+//@   ensures C03.far.add.values: glen("bess") == old[int](glen("bess"))+1 ==> specFarAddArg(gentry("bess", old[int](glen("bess")))).Gate == uint64(far.tunnelType) && specInts(specFarAddArg(gentry("bess", old[int](glen("bess")))).Values, 6) && specFD(specFarAddArg(gentry("bess", old[int](glen("bess")))).Values[0]) == uint64(specFarAction(far)) && specFD(specFarAddArg(gentry("bess", old[int](glen("bess")))).Values[1]) == uint64(far.tunnelType) && specFD(specFarAddArg(gentry("bess", old[int](glen("bess")))).Values[2]) == uint64(far.tunnelIP4Src) && specFD(specFarAddArg(gentry("bess", old[int](glen("bess")))).Values[3]) == uint64(far.tunnelIP4Dst) && specFD(specFarAddArg(gentry("bess", old[int](glen("bess")))).Values[4]) == uint64(far.tunnelTEID) && specFD(specFarAddArg(gentry("bess", old[int](glen("bess")))).Values[5]) == uint64(far.tunnelPort)
+
+//@ func (b *bess) delFAR#1() free(b *bess, far far)
+//@   deadreturns 3
+//@   requires b != nil && b.client != nil && !enableGtpuPathMonitoring
+//@   ensures C03.far.del.count: glen("bess") <= old[int](glen("bess"))+1 && (gint("marshalfail") == old[int](gint("marshalfail")) ==> glen("bess") == old[int](glen("bess"))+1)
+//@   ensures C03.far.del.cmd: glen("bess") == old[int](glen("bess"))+1 ==> specBessCmd(gentry("bess", old[int](glen("bess"))), "farLookup", "delete") && specFarKey(specFarDelArg(gentry("bess", old[int](glen("bess")))).Fields, far)
+
+// ---- PDR ----
+
+// specCartRule / specCartLen: the k-th port rule CreatePortRangeCartesianProduct returns for a pair
+// of port ranges. The function is deterministic (no map iteration, time, randomness or shared state
+// in its body and callees), so its result is a function of its arguments: the contract below
+// DEFINES these ghost functions as that result. add and delete of one PDR therefore enumerate the
+// same port rules.
+func specCartRule(src, dst portRange, k int) portRangeTernaryCartesianProduct { panic("ghost") }
+
+func specCartLen(src, dst portRange) int { panic("ghost") }
+
+func specPdrKey(values, masks []*pb.FieldData, p pdr, r portRangeTernaryCartesianProduct) bool {
+	return specInts(values, 8) && specInts(masks, 8) &&
+		specFD(values[0]) == uint64(p.srcIface) && specFD(masks[0]) == uint64(p.srcIfaceMask) &&
+		specFD(values[1]) == uint64(p.tunnelIP4Dst) && specFD(masks[1]) == uint64(p.tunnelIP4DstMask) &&
+		specFD(values[2]) == uint64(p.tunnelTEID) && specFD(masks[2]) == uint64(p.tunnelTEIDMask) &&
+		specFD(values[3]) == uint64(p.appFilter.srcIP) && specFD(masks[3]) == uint64(p.appFilter.srcIPMask) &&
+		specFD(values[4]) == uint64(p.appFilter.dstIP) && specFD(masks[4]) == uint64(p.appFilter.dstIPMask) &&
+		specFD(values[5]) == uint64(r.srcPort) && specFD(masks[5]) == uint64(r.srcMask) &&
+		specFD(values[6]) == uint64(r.dstPort) && specFD(masks[6]) == uint64(r.dstMask) &&
+		specFD(values[7]) == uint64(p.appFilter.proto) && specFD(masks[7]) == uint64(p.appFilter.protoMask)
+}
+
+func specPdrAddArg(e int) *pb.WildcardMatchCommandAddArg {
+	return ptrAt[pb.WildcardMatchCommandAddArg](int(gfield("bess.arg", e)))
+}
+
+func specPdrDelArg(e int) *pb.WildcardMatchCommandDeleteArg {
+	return ptrAt[pb.WildcardMatchCommandDeleteArg](int(gfield("bess.arg", e)))
+}
+
+func specFirstQerID(p pdr) uint32 {
+	if len(p.qerIDList) != 0 {
+		return p.qerIDList[0]
+	}
+
+	return 0
+}
+
+// specPdrAdded: command e installs PDR p under port rule r.
+func specPdrAdded(e int, p pdr, r portRangeTernaryCartesianProduct) bool {
+	return specBessCmd(e, "pdrLookup", "add") && specPdrKey(specPdrAddArg(e).Values, specPdrAddArg(e).Masks, p, r) &&
+		specPdrAddArg(e).Gate == uint64(p.needDecap) && specPdrAddArg(e).Priority == int64(4294967295-p.precedence) &&
+		specInts(specPdrAddArg(e).Valuesv, 5) && specFD(specPdrAddArg(e).Valuesv[0]) == uint64(p.pdrID) && specFD(specPdrAddArg(e).Valuesv[1]) == p.fseID &&
+		specFD(specPdrAddArg(e).Valuesv[2]) == uint64(p.ctrID) && specFD(specPdrAddArg(e).Valuesv[3]) == uint64(specFirstQerID(p)) && specFD(specPdrAddArg(e).Valuesv[4]) == uint64(p.farID)
+}
+
+func specPdrDeleted(e int, p pdr, r portRangeTernaryCartesianProduct) bool {
+	return specBessCmd(e, "pdrLookup", "delete") && specPdrKey(specPdrDelArg(e).Values, specPdrDelArg(e).Masks, p, r)
+}
+
+//@ func (b *bess) addPDR#1() free(b *bess, p pdr)
+//@   requires b != nil && b.client != nil
+//@   ensures C03.pdr.add.count: gint("marshalfail") == old[int](gint("marshalfail")) && glen("bess") != old[int](glen("bess")) ==> glen("bess") == old[int](glen("bess"))+specCartLen(p.appFilter.srcPortRange, p.appFilter.dstPortRange)
+//@   ensures C03.pdr.add.entries: forall k int :: 0 <= k && k < glen("bess")-old[int](glen("bess")) ==> specPdrAdded(gentry("bess", old[int](glen("bess"))+k), p, specCartRule(p.appFilter.srcPortRange, p.appFilter.dstPortRange, k))
+//@   loop 1 freshwrites pb.WildcardMatchCommandAddArg, pb.FieldData, pb.FieldData_ValueInt, pb.CommandRequest, E:*pb.FieldData
+//@   loop 1 invariant C03.pdr.add.l1.count: glen("bess") == old[int](glen("bess"))+rangeidx+1 && gint("marshalfail") == old[int](gint("marshalfail")) && len(portRules) == specCartLen(p.appFilter.srcPortRange, p.appFilter.dstPortRange)
+//@   loop 1 invariant C03.pdr.add.l1.rules: forall k int :: 0 <= k && k < len(portRules) ==> portRules[k] == specCartRule(p.appFilter.srcPortRange, p.appFilter.dstPortRange, k)
+//@   loop 1 invariant C03.pdr.add.l1.entries: forall k int :: 0 <= k && k <= rangeidx ==> specPdrAdded(gentry("bess", old[int](glen("bess"))+k), p, specCartRule(p.appFilter.srcPortRange, p.appFilter.dstPortRange, k))
+
+//@ func (b *bess) delPDR#1() free(b *bess, p pdr)
+//@   requires b != nil && b.client != nil
+//@   ensures C03.pdr.del.count: gint("marshalfail") == old[int](gint("marshalfail")) && glen("bess") != old[int](glen("bess")) ==> glen("bess") == old[int](glen("bess"))+specCartLen(p.appFilter.srcPortRange, p.appFilter.dstPortRange)
+//@   ensures C03.pdr.del.entries: forall k int :: 0 <= k && k < glen("bess")-old[int](glen("bess")) ==> specPdrDeleted(gentry("bess", old[int](glen("bess"))+k), p, specCartRule(p.appFilter.srcPortRange, p.appFilter.dstPortRange, k))
+//@   loop 1 freshwrites pb.WildcardMatchCommandDeleteArg, pb.FieldData, pb.FieldData_ValueInt, pb.CommandRequest, E:*pb.FieldData
+//@   loop 1 invariant C03.pdr.del.l1.count: glen("bess") == old[int](glen("bess"))+rangeidx+1 && gint("marshalfail") == old[int](gint("marshalfail")) && len(portRules) == specCartLen(p.appFilter.srcPortRange, p.appFilter.dstPortRange)
+//@   loop 1 invariant C03.pdr.del.l1.rules: forall k int :: 0 <= k && k < len(portRules) ==> portRules[k] == specCartRule(p.appFilter.srcPortRange, p.appFilter.dstPortRange, k)
+//@   loop 1 invariant C03.pdr.del.l1.entries: forall k int :: 0 <= k && k <= rangeidx ==> specPdrDeleted(gentry("bess", old[int](glen("bess"))+k), p, specCartRule(p.appFilter.srcPortRange, p.appFilter.dstPortRange, k))
